@@ -64,6 +64,11 @@ CHECKS = {
          "Elements are [key, id] pairs. All arrays of length <=6/8 over 3 keys x 3 key kinds; every length in the list x 7 base patterns with every single deviation and, at the merge thresholds, every pair of deviations; all 64x64 set pairs over a 6-key universe with and without keyF; setMember on every set size 1..64; long arrays up to 5000 elements under the default frame limit. std.sort must be the stable sort, uniq/set/minArray/maxArray/setUnion/Inter/Diff/setMember must equal the model (ties taken from the left operand).",
          "Trusted: Vec::sort_by_key (stable) as the sorting model; key values outside the small universes are not covered.",
          "DESIGN.md §4 C17"),
+ "C18": ("model_checking",
+         "exhaustive enumeration of strings x patterns over a mixed-width alphabet and of every Unicode scalar value against a Vec<char> reference model",
+         "All strings of length <=3/4 over {a, b, é, €, 😀, U+0301, ','} (plus overlap-prone extras) and all non-empty patterns of length <=2 are run through every code-point-sensitive builtin (length, index, slices, substr, findSubstr, stringChars, codepoint/char, reverse, map/flatMap/mapWithIndex, split/splitLimit/splitLimitR, join, strip*, strReplace, trim, startsWith/endsWith, case functions, member, repeat, %Ns/%-Ns/%*s widths) and compared with ref_strings; every Unicode scalar value goes through 17 observations; parseHex/parseOctal/parseInt get a multi-byte character at every byte position 0..45.",
+         "Trusted: ref_strings (definitions over code points); strings longer than the bound are not covered.",
+         "DESIGN.md §4 C18"),
 }
 def main():
     hooks = subprocess.run(["git","-C","/repo","log","--format=%H %s"],capture_output=True,text=True).stdout.splitlines()
